@@ -115,10 +115,21 @@ func dropOffPathFacts(lines []string, goal string) []string {
 	if len(work) == 0 {
 		return lines
 	}
+	// facts guarded by a block of the cone may tie it to further blocks (an inlined call:
+	// "the caller continues only if the callee reached a return"): those join the cone too
+	guarded := map[string][]string{}
+	for _, l := range lines {
+		if strings.HasPrefix(l, "(assert (=> reach_b") {
+			t := tokens(l)
+			if len(t) > 1 {
+				guarded[t[0]] = append(guarded[t[0]], t[1:]...)
+			}
+		}
+	}
 	for len(work) > 0 {
 		t := work[len(work)-1]
 		work = work[:len(work)-1]
-		for _, u := range tokens(defs[t]) {
+		for _, u := range append(tokens(defs[t]), guarded[t]...) {
 			if !cone[u] {
 				cone[u] = true
 				work = append(work, u)
@@ -136,4 +147,42 @@ func dropOffPathFacts(lines []string, goal string) []string {
 		out = append(out, l)
 	}
 	return out
+}
+
+// sliceByGoalUFs is the first, cheap attempt at an obligation: every hypothesis that speaks
+// about an uninterpreted function the goal does not mention (xor8, hash bytes, recursive spec
+// functions, pure extern results, ...) is left out, together with the axioms of those
+// functions. Leaving hypotheses out is sound; when the sliced query is not unsat the full
+// query is tried as before, so nothing is lost. It makes proofs about one aspect of a
+// function (say, that a key prefix is unchanged) independent of the quantified facts about
+// another (the xor key stream), which were what made such proofs time out now and then.
+func sliceByGoalUFs(lines []string, goal string, ufs []string) ([]string, bool) {
+	var foreign []string
+	for _, u := range ufs {
+		if !strings.Contains(goal, "("+u+" ") {
+			foreign = append(foreign, "("+u+" ")
+		}
+	}
+	if len(foreign) == 0 {
+		return lines, false
+	}
+	out := lines[:0:0]
+	changed := false
+	for _, l := range lines {
+		if strings.HasPrefix(l, "(assert ") {
+			drop := false
+			for _, f := range foreign {
+				if strings.Contains(l, f) {
+					drop = true
+					break
+				}
+			}
+			if drop {
+				changed = true
+				continue
+			}
+		}
+		out = append(out, l)
+	}
+	return out, changed
 }
